@@ -328,7 +328,11 @@ impl FixedScen {
         for _ in 0..1000 {
             match self.list_props(cur, Some(30)) {
                 Some(p) if !p.is_empty() => {
-                    cur = Some(p.last().unwrap().id);
+                    let next = Some(p.last().unwrap().id);
+                    if next == cur {
+                        break; // no progress (a defect in the code under test): do not walk forever
+                    }
+                    cur = next;
                     out.extend(p);
                 }
                 _ => break,
@@ -343,7 +347,11 @@ impl FixedScen {
         for _ in 0..1000 {
             match self.q::<VoterListResponse>(&QueryMsg::ListVoters { start_after: cur.clone(), limit: Some(30) }) {
                 Some(r) if !r.voters.is_empty() => {
-                    cur = Some(r.voters.last().unwrap().addr.clone());
+                    let next = Some(r.voters.last().unwrap().addr.clone());
+                    if next == cur {
+                        break; // no progress (a defect in the code under test): do not walk forever
+                    }
+                    cur = next;
                     out.extend(r.voters.into_iter().map(|v| (v.addr, v.weight)));
                 }
                 _ => break,
@@ -359,7 +367,11 @@ impl FixedScen {
         for _ in 0..1000 {
             match self.list_votes(id, cur.clone(), Some(30)) {
                 Some(p) if !p.is_empty() => {
-                    cur = Some(p.last().unwrap().split(':').next().unwrap().to_string());
+                    let next = Some(p.last().unwrap().split(':').next().unwrap().to_string());
+                    if next == cur {
+                        break; // no progress (a defect in the code under test): do not walk forever
+                    }
+                    cur = next;
                     out.extend(p);
                 }
                 _ => break,
@@ -412,7 +424,11 @@ impl FixedScen {
         for _ in 0..1000 {
             match self.q::<VoterListResponse>(&QueryMsg::ListVoters { start_after: cur.clone(), limit: l }) {
                 Some(r) if !r.voters.is_empty() => {
-                    cur = Some(r.voters.last().unwrap().addr.clone());
+                    let next = Some(r.voters.last().unwrap().addr.clone());
+                    if next == cur {
+                        break; // no progress (a defect in the code under test): do not walk forever
+                    }
+                    cur = next;
                     voters.extend(r.voters.iter().map(|v| format!("{}:{}", v.addr, v.weight)));
                 }
                 _ => break,
@@ -433,7 +449,11 @@ impl FixedScen {
         for _ in 0..1000 {
             match self.list_props(cur, l) {
                 Some(p) if !p.is_empty() => {
-                    cur = Some(p.last().unwrap().id);
+                    let next = Some(p.last().unwrap().id);
+                    if next == cur {
+                        break; // no progress (a defect in the code under test): do not walk forever
+                    }
+                    cur = next;
                     props.extend(p);
                 }
                 _ => break,
@@ -445,7 +465,11 @@ impl FixedScen {
         for _ in 0..1000 {
             match self.rev_props(cur, l) {
                 Some(p) if !p.is_empty() => {
-                    cur = Some(p.last().unwrap().id);
+                    let next = Some(p.last().unwrap().id);
+                    if next == cur {
+                        break; // no progress (a defect in the code under test): do not walk forever
+                    }
+                    cur = next;
                     rprops.extend(p.iter().map(|x| self.render_prop(x)));
                 }
                 _ => break,
@@ -471,7 +495,11 @@ impl FixedScen {
             for _ in 0..1000 {
                 match self.q::<VoteListResponse>(&QueryMsg::ListVotes { proposal_id: p.id, start_after: cur.clone(), limit: l }) {
                     Some(r) if !r.votes.is_empty() => {
-                        cur = Some(r.votes.last().unwrap().voter.clone());
+                        let next = Some(r.votes.last().unwrap().voter.clone());
+                        if next == cur {
+                            break; // no progress (a defect in the code under test): do not walk forever
+                        }
+                        cur = next;
                         votes.extend(r.votes.iter().map(|v| format!("{}>{}:{}:{}", p.id, v.voter, v.weight, render_vote(v.vote))));
                         listed.extend(r.votes.iter().map(|v| v.voter.clone()));
                     }
